@@ -96,7 +96,9 @@ func RunWorker(c *Check, tier string, shard, nshards int, resume uint64, progPat
 		c.Setup(tier)
 	}
 	seen := map[uint64]struct{}{}
-	var idx, cases uint64
+	var idx, cases, beats uint64
+	var curIdx uint64
+	ctx.tick = func() { beats++; prog.set(curIdx+1, cases+beats<<32) }
 	mkStats := func(final bool) *stats {
 		s := &stats{Cases: cases, Evals: ctx.Evals, Nontrivial: ctx.Nontrivial, Zones: ctx.Zones, Counters: ctx.Counters,
 			States: ctx.States, Trans: ctx.Trans, LastIdx: idx}
@@ -124,7 +126,8 @@ func RunWorker(c *Check, tier string, shard, nshards int, resume uint64, progPat
 			return
 		}
 		seen[h] = struct{}{}
-		prog.set(i+1, cases)
+		curIdx = i
+		prog.set(i+1, cases+beats<<32)
 		runCase(ctx, cs)
 		cases++
 		if len(ctx.Samples) < 3 && (cases == 1 || cases == 50 || cases == 2000) {
